@@ -101,6 +101,7 @@ type tlsEnv struct {
 	peerDone chan struct{}
 	exited   atomic.Bool
 	gaveUp   atomic.Bool
+	skips    atomic.Int32 // expectations a lenient peer gave up waiting for
 }
 
 func newTLSEnv(r *run) *tlsEnv {
@@ -155,6 +156,14 @@ func (e *tlsEnv) pump() {
 	if peerSeen && !peerParked {
 		return
 	}
+	if e.r.f.Kind == "wrlost" && peerSeen && e.skips.Load() < 4 {
+		// half-dead connection: the peer stops waiting for the request that
+		// never arrived and carries on as if it had (its blocked read is woken
+		// through the read deadline of its own end)
+		e.skips.Add(1)
+		e.far.SetReadDeadline(time.Unix(1, 0))
+		return
+	}
 	e.gaveUp.Store(true)
 	e.far.Close()
 }
@@ -180,6 +189,7 @@ func (q quietConn) Write(p []byte) (int, error) {
 type rawPeer struct {
 	c net.Conn
 	d *xml.Decoder
+	e *tlsEnv
 }
 
 func (p *rawPeer) use(c net.Conn) { p.c = c; p.d = xml.NewDecoder(c) }
@@ -229,6 +239,13 @@ func (p *rawPeer) next() (name, id string, err error) {
 func (p *rawPeer) expect(names ...string) (id string, ok bool) {
 	for _, want := range names {
 		n, i, err := p.next()
+		var ne net.Error
+		if err != nil && p.e != nil && errors.As(err, &ne) && ne.Timeout() {
+			// told to stop waiting (see pump): assume the request arrived
+			p.e.far.SetReadDeadline(time.Time{})
+			p.use(p.c)
+			return "", true
+		}
 		if err != nil || n != want {
 			return "", false
 		}
@@ -251,7 +268,7 @@ func tlsHandshakes() []*handshake {
 			}
 			a.tlsPeer = func(e *tlsEnv) {
 				far := quietConn{Conn: e.far, e: e}
-				p := &rawPeer{}
+				p := &rawPeer{e: e}
 				p.use(far)
 				if _, ok := p.expect("stream"); !ok {
 					return
@@ -305,7 +322,7 @@ func tlsHandshakes() []*handshake {
 			}
 			a.tlsPeer = func(e *tlsEnv) {
 				far := quietConn{Conn: e.far, e: e}
-				p := &rawPeer{}
+				p := &rawPeer{e: e}
 				p.use(far)
 				if !p.say(cliHeader(false)) {
 					return
